@@ -172,10 +172,31 @@ impl Prop for C05 {
                 }
             }
         }
+        // raw .debug_* sections with arbitrary payloads: parsing must ignore them whatever the switches say
+        if rng.chance(1, 12) {
+            for name in [".debug_info", ".debug_line", ".debug_abbrev", ".debug_str", ".debug_ranges", ".debug_pubnames"] {
+                if rng.chance(1, 2) {
+                    let plen = rng.below(60) as usize;
+                    let sec = wasmsplit::custom_section_bytes(name.as_bytes(), &rng.bytes(plen));
+                    let n = wasmsplit::split(&cur).map(|s| s.len()).unwrap_or(0);
+                    let at = rng.usize_below(n + 1);
+                    let before = cur.clone();
+                    if let Some(nb) = wasmsplit::insert_section(&cur, at, &sec) {
+                        // recorded as a splice fault so that the case replays without the PRNG
+                        let pos = wasmsplit::split(&before).and_then(|s| s.get(at).map(|x| x.range.start)).unwrap_or(before.len());
+                        let mut tail = sec.clone();
+                        tail.extend_from_slice(&before[pos..]);
+                        if tail.len() <= 200_000 {
+                            fs.push(Fault::Splice { at: pos, tail_hex: wasmsplit::hex(&tail) });
+                            cur = nb;
+                        }
+                    }
+                }
+            }
+        }
         let via_file = if rng.chance(1, 12) { 1 + rng.below(4) as u8 } else { 0 };
         let mut cfg = CfgBits::from_mask(rng.below(512) as u32);
         cfg.only_stable = false; // both feature configurations are evaluated for every case
-        cfg.dwarf = false;
         let case = Case {
             victim: picked.iref,
             recipe: if fs.is_empty() { picked.recipe } else { None },
@@ -219,7 +240,6 @@ impl Prop for C05 {
         for (k, only_stable) in [false, true].into_iter().enumerate() {
             let mut cfg = CfgBits::from_mask(case.cfg_mask);
             cfg.only_stable = only_stable;
-            cfg.dwarf = false;
             cfg.probe = false;
             let v = validator::validate(effective, only_stable);
             let w = match walrus_parse(env, &bytes, &cfg, case.via_file, tag ^ k as u64) {
